@@ -276,7 +276,8 @@ def raiseOrderDispatch (o : Obj K) (tol : K) (isCurve : Bool) (raises : List Int
   if isCurve then
     match raises with
     | [a] => curveRaiseOrder o tol a
-    | _ => .error .type    -- Curve.raise_order takes exactly one amount
+    | [a, _] => curveRaiseOrder o tol a   -- second positional argument is the ignored `direction`
+    | _ => .error .type    -- Curve.raise_order(amount, direction=None): other arities are a TypeError
   else raiseOrder o tol raises direction
 
 /-- `SplineObject.set_order(*order)`; calls `self.raise_order(*diff)` (dispatching on the class). -/
